@@ -106,6 +106,7 @@ pub struct Closure {
     pub tid: usize,
     pub executed: u32,
     pub unprotected: bool,
+    pub captured_drops: u32,
 }
 
 /// per simulated thread: what the user-level critical section looks like
@@ -520,6 +521,10 @@ impl Shadow {
         for (p, k, tag, det) in leaks {
             self.soft(p, &format!("{}/{}", k, tag), det);
         }
+        let undropped: Vec<usize> = self.closures.iter().enumerate().filter(|(_, c)| c.executed == 1 && c.captured_drops != 1).map(|(i, _)| i).collect();
+        if !undropped.is_empty() {
+            self.soft("C15", "deferred-captures-not-dropped-once", format!("data captured by executed deferred function(s) {:?} was not dropped exactly once", undropped));
+        }
         let lost: Vec<usize> = self.closures.iter().enumerate().filter(|(_, c)| c.executed == 0).map(|(i, _)| i).collect();
         if !lost.is_empty() {
             self.soft("C15", "deferred-lost", format!("deferred function(s) {:?} never executed after {} collection rounds", lost, rounds));
@@ -588,6 +593,12 @@ impl Monitor for RcMonitor {
     fn on_step(&mut self, tid: usize, site: u32) {
         let sh = shadow();
         sh.ebr.on_step(tid, site);
+        if !sh.ebr.pending_soft.is_empty() {
+            for (sig, det) in sh.ebr.take_soft() {
+                // an advance past a validated pinned participant is also what C18's title excludes
+                sh.soft("C14,C18", &sig, det);
+            }
+        }
         if let Some(w) = sh.debug_watch {
             // debugging aid (VERIF_WATCH=<object id>): print every change of its count word
             if let Some(ob) = sh.objs.get(w as usize) {
